@@ -32,7 +32,7 @@ Definition extract_cmp (exacts : list bool) (k : Z) (scale : Qc)
   (r : option (list module * list cell)) (obs : option (list module * list cell)) : bool :=
   match r, obs with
   | None, None => true
-  | Some (ms, cs), Some (ms', cs') => modules_cmp exacts k scale ms ms' && cells_eqb cs cs'
+  | Some (ms, cs), Some (ms', cs') => modules_cmp exacts k scale ms ms' && cells_same cs cs'
   | _, _ => false
   end.
 
